@@ -122,7 +122,7 @@ PROPS = {
     "C13": {
         "inv": ["BaseComponent.is_ready", "BaseWorkplace.can_put", "BaseWorkplace.get_available_space_size", "BaseWorkplace.get_total_workamount_skill",
                 "BaseComponent.set_placed_workplace", "BaseWorkplace.set_placed_component", "BaseWorkplace.remove_placed_component",
-                "BaseProject.__allocate@placement",
+                "BaseProject.__allocate@placement", "BaseProject.__allocate@facilities",
                 "BaseComponent.record_placed_workplace_id", "BaseWorkplace.record_placed_component_id"],
         "static": COMMON_STATIC,
         "level_text": "The placement block of the allocation loop (base_project.py `if task.target_component is not None: ...`, cut out of "
@@ -133,9 +133,10 @@ PROPS = {
                       "its whole subtree is relabelled, and no other component or workplace changes. The recursive set/remove functions "
                       "are proved over arbitrary product trees (ghost descendant relation and rank), can_put / available space / "
                       "is_ready against their definitions, and the two log writers against the live state.",
-        "level_note": "Not decided: `moves at most once per step` and `a task only works with facilities of the workplace where its "
-                      "component is placed` are properties of the whole allocation loop (several tasks of one component), which is not "
-                      "verified (bounded stand-in of __allocate did not terminate within budget); removal of finished top-level "
+        "level_note": "The facility branch (block __allocate@facilities) is proved to give a task only facilities of the workplace where its "
+                      "component is placed at that moment. Not decided: `moves at most once per step`, and hence that the component is still "
+                      "there at the end of the pass (a second READY task of the same component can move it again: D7) - properties of the "
+                      "whole allocation loop, which is not verified as one unit (its bounded stand-in did not terminate within budget); removal of finished top-level "
                       "components (check_removing_placed_workplace) is under an assumed frame contract only; the capacity clause counts "
                       "every listed component (children too), i.e. is at least as strict as the property's top-most counting. The assembly "
                       "branch (unplaced parent whose children are placed on their own) is excluded by precondition. Known findings: nested "
@@ -155,7 +156,8 @@ PROPS = {
                 "BaseWorkflow.__check_working", "BaseWorkflow.__check_finished", "BaseTask.can_add_resources",
                 "BaseWorker.record_assigned_task_id", "BaseFacility.record_assigned_task_id",
                 "BaseTask.record_allocated_workers_facilities_id",
-                "BaseWorker.initialize", "BaseFacility.initialize", "BaseTask.initialize", "BaseProject.__allocate@workers"],
+                "BaseWorker.initialize", "BaseFacility.initialize", "BaseTask.initialize", "BaseProject.__allocate@workers",
+                "BaseProject.__allocate@facilities", "BaseProject.__allocate@allocation"],
         "static": COMMON_STATIC,
         "level_text": "Function-level contracts, all inputs, arbitrary set order: release on finish (every resource a finishing task "
                       "held gets an empty assignment list and state FREE; nothing else is touched; exclusive two-way consistency is "
@@ -170,7 +172,8 @@ PROPS = {
     "C04": {
         "inv": ["BaseTask.can_add_resources", "BaseProject.__is_allocated_worker", "BaseProject.__is_allocated_facility",
                 "BaseWorker.has_workamount_skill", "BaseFacility.has_workamount_skill", "BaseWorker.has_facility_skill",
-                "BaseOrganization.check_update_state_from_absence_time_list", "BaseProject.simulate", "BaseProject.__allocate@workers"],
+                "BaseOrganization.check_update_state_from_absence_time_list", "BaseProject.simulate", "BaseProject.__allocate@workers",
+                "BaseProject.__allocate@facilities", "BaseProject.__allocate@candidates"],
         "static": COMMON_STATIC,
         "level_text": "can_add_resources is proved equal to the eligibility predicate (state, solo rules both ways, fixed-ID lists, "
                       "unassigned facility, facility/worker/operator skills > tol) for all tasks/workers/facilities, and each clause of "
@@ -184,23 +187,30 @@ PROPS = {
     },
     "C11": {
         "inv": ["sort_task_list", "sort_worker_list", "sort_facility_list", "sort_workplace_list",
-                "BaseWorkplace.get_available_space_size"],
+                "BaseWorkplace.get_available_space_size", "BaseProject.__allocate@candidates", "BaseProject.__allocate@workers"],
         "static": COMMON_STATIC,
         "level_text": "Each of the four sorting functions is proved, for every rule value and all lists (ties, missing map entries, "
                       "equal-but-not-identical ID strings: `is` is modelled as weaker than ==), to return a permutation of its input "
                       "ordered by the documented key of the rule (keys written from the documentation: slack, EST, SPT/LPT, FIFO = "
                       "number of READY log entries, LRPT/SRPT, LWRPT/SWRPT; MW/SSP/VC/HSV with tie-break tuples; FSS, SSP).",
         "level_note": "sorted() is axiomatised (stable, permutation, ordered by key); `permutation` is decided structurally (result is "
-                      "an if-tree over sorted(input) / input). Clause (b) no-inversion in __allocate is not yet under contract.",
+                      "an if-tree over sorted(input) / input). Clause (b): the statements of __allocate before its task loop (block "
+                      "__allocate@candidates) are proved to hand the loop exactly the READY/WORKING tasks of the workflow, ordered by the "
+                      "project's task priority rule (all nine rules), and only FREE workers of the organization; the loop itself visits that "
+                      "list front to back (python semantics), and the no-facility branch takes every acceptable worker for the task at hand "
+                      "(__allocate@workers), so a lower-priority task is never served before a higher-priority one within a pass. The "
+                      "facility branch is not verified; that EVERY free worker is offered is not decided.",
         "design_ref": "DESIGN.md section 6 C11",
         "assumptions": ["float('inf') is an uninterpreted real constant; sum(dict.values()) is an uninterpreted function of the dict",
-                        "not yet discharged: C11(b) no priority inversion inside __allocate; call-site obligations of __allocate (HSV for facilities)"],
+                        "block extraction drops the rest of __allocate; the composition `ordered list + front-to-back loop + exhaustive branch => no inversion` is an argument over three obligations, not one",
+                        "not discharged: the facility branch of __allocate; completeness of the offered free-worker list"],
         "explanation": "sort functions against documented keys",
     },
 
     "C12": {
         "inv": ["BaseWorkflow.__set_est_eft_data", "BaseWorkflow.__set_lst_lft_criticalpath_data", "BaseWorkflow.update_PERT_data"],
-        "bounded": [{"qual": "BaseWorkflow.update_PERT_data", "bound": 2, "nrefs": 3, "nstrs": 2,
+        "bounded": [{"qual": "BaseWorkflow.update_PERT_data", "bound": 2, "nrefs": 3, "nstrs": 2, "deepen": False,   # bound 3 did not finish in 50 min
+
                      "force_inline": ["BaseWorkflow.__set_est_eft_data", "BaseWorkflow.__set_lst_lft_criticalpath_data"]}],
         "static": COMMON_STATIC,
         "level_text": "Unbounded part: frames and safety of the two PERT passes (only est/eft/lst/lft/critical_path_length are "
@@ -237,7 +247,7 @@ PROPS = {
     },
     "C06": {
         "inv": ["BaseWorkflow.__check_ready", "BaseWorkflow.__check_working", "BaseWorkflow.__check_finished", "BaseTask.can_add_resources",
-                "BaseProject.__allocate@workers", "BaseProject.__is_allocated_worker", "BaseProject.__is_allocated_facility"],
+                "BaseProject.__allocate@workers", "BaseProject.__allocate@candidates", "BaseProject.__is_allocated_worker", "BaseProject.__is_allocated_facility"],
         "static": COMMON_STATIC,
         "level_text": "Clauses (a), (b), (d) are completeness postconditions proved for all workflows and every set iteration order: a NONE "
                       "task whose start gate is open (FS predecessors FINISHED, SS predecessors started, including started-and-finished) "
@@ -357,7 +367,9 @@ PROPS = {
 
     "C20": {
         "inv": ["BaseSubProjectTask.set_all_attributes_from_json", "BaseSubProjectTask.set_work_amount_progress_of_unit_step_time",
-                "BaseProject.remove_absence_time_list", "BaseTask.perform", "BaseWorkflow.__check_working", "BaseWorkflow.__check_finished"],
+                "BaseProject.remove_absence_time_list", "BaseTask.perform", "BaseWorkflow.__check_working", "BaseWorkflow.__check_finished",
+                # `needing no workers`: the allocation statement of __allocate gives an automatic task nothing
+                "BaseProject.__allocate@allocation"],
         "static": COMMON_STATIC + ["c20_ceil_lemma"],
         "level_text": "set_all_attributes_from_json is verified: a project that was not simulated successfully is refused (result (-1, 1 day), "
                       "task attributes untouched: frame at that return site); otherwise the work amount is the loaded project's time AFTER "
